@@ -202,6 +202,13 @@ theorem kexinit_with_nonzero_seqno_rejected (T : Tables) (hT : KexTables T) (s :
   | incompatible => simp [hagree, hd, hlate, St.fail]
   | ok e => simp [hagree, hd, hlate, St.fail]
 
+/-- **The reset depends on strict mode and on nothing else** (AST of `_activate_inbound` / `_activate_outbound`, read on
+every run): the `if` around `reset_seqno_in()` / `reset_seqno_out()` tests exactly `self.agreed_on_strict_kex` — as in
+the model's `parseNewkeys` / `activateOutbound`, which know no cipher.  So `newkeys_resets_inbound` and
+`newkeys_resets_outbound` hold for every negotiated cipher, AEAD ones included (where a skipped reset would not even
+show as a MAC failure). -/
+theorem seqno_reset_ignores_the_cipher : Generated.C12.seqnoResetGuardIsStrictOnly = true := by decide
+
 /-- **Inbound reset.**  Whenever NEWKEYS is accepted in strict mode — first exchange or any later one — the
 inbound sequence number restarts at zero. -/
 theorem newkeys_resets_inbound (T : Tables) (hT : KexTables T) (s : St) (hact : s.active = true)
